@@ -1400,3 +1400,58 @@ Proof.
     rewrite firstn_app, Nat.sub_diag, firstn_all. cbn [firstn]. rewrite app_nil_r.
     rewrite skipn_app, Nat.sub_diag, skipn_all. cbn [skipn app]. auto.
 Qed.
+
+(* ---- hash.go: what CAN be said about distinctness: one-label sets, CH64 injective on 64 bits ---- *)
+Section HASH_PARTIAL.
+  Variable ch64 : string -> N.
+  Open Scope N_scope.
+
+  (* the strings CH64 is applied to while fingerprinting a label set *)
+  Definition hashed (m : lbls) : list string :=
+    map (fun kv => (fst kv ++ snd kv)%string) m ++ [let '(a, b, c) := fp_descr ch64 m in descr_bytes a b c].
+  (* no two different strings of l have the same 64-bit hash *)
+  Definition collision_free (l : list string) : Prop :=
+    forall a b, In a l -> In b l -> w64 (ch64 a) = w64 (ch64 b) -> a = b.
+
+  Lemma le_bytes_length : forall n x, String.length (le_bytes n x) = n.
+  Proof. induction n as [|n IH]; intros x; cbn [le_bytes String.length]; [reflexivity|]. now rewrite IH. Qed.
+
+  Lemma le_bytes_inj : forall n x y, le_bytes n x = le_bytes n y -> x mod 256 ^ N.of_nat n = y mod 256 ^ N.of_nat n.
+  Proof.
+    induction n as [|n IH]; intros x y H.
+    - cbn. now rewrite !N.mod_1_r.
+    - cbn [le_bytes] in H. inversion H as [[H1 H2]]. apply IH in H2.
+      assert (E : x mod 256 = y mod 256).
+      { rewrite <- (N_ascii_embedding (x mod 256)), <- (N_ascii_embedding (y mod 256)) by (apply N.mod_upper_bound; discriminate).
+        now rewrite H1. }
+      replace (N.of_nat (S n)) with (N.succ (N.of_nat n)) by lia. rewrite N.pow_succ_r'.
+      rewrite !N.mod_mul_r by (try discriminate; apply N.pow_nonzero; discriminate). now rewrite E, H2.
+  Qed.
+
+  Lemma append_same_length_inj : forall s1 s2 t1 t2, String.length s1 = String.length s2 ->
+    (s1 ++ t1)%string = (s2 ++ t2)%string -> s1 = s2.
+  Proof.
+    induction s1 as [|a s1 IH]; intros [|b s2] t1 t2 L H; cbn in L; try discriminate; [reflexivity|].
+    cbn in H. inversion H. f_equal. apply (IH s2 t1 t2); [lia|assumption].
+  Qed.
+
+  Lemma singleton_distinct k v k' v' : collision_free (hashed [(k, v)] ++ hashed [(k', v')]) ->
+    fingerprint ch64 [(k, v)] = fingerprint ch64 [(k', v')] -> (k ++ v)%string = (k' ++ v')%string.
+  Proof.
+    intros Hcf H.
+    set (s := (k ++ v)%string) in *. set (s' := (k' ++ v')%string) in *.
+    set (h := w64 (ch64 s)). set (h' := w64 (ch64 s')).
+    set (d := descr_bytes (w64 (0 + h)) (N.lxor 0 h) (w64 (1 * w64 (1779033703 + 2 * h)))).
+    set (d' := descr_bytes (w64 (0 + h')) (N.lxor 0 h') (w64 (1 * w64 (1779033703 + 2 * h')))).
+    assert (Hl : hashed [(k, v)] ++ hashed [(k', v')] = [s; d; s'; d']) by reflexivity.
+    assert (Hf : fingerprint ch64 [(k, v)] = w64 (ch64 d)) by reflexivity.
+    assert (Hf' : fingerprint ch64 [(k', v')] = w64 (ch64 d')) by reflexivity.
+    rewrite Hl in Hcf. rewrite Hf, Hf' in H. clear Hl Hf Hf'.
+    assert (Hd : d = d') by (apply Hcf; [right; left; reflexivity|right; right; right; left; reflexivity|exact H]).
+    unfold d, d', descr_bytes in Hd. apply append_same_length_inj in Hd; [|now rewrite !le_bytes_length].
+    apply le_bytes_inj in Hd. change (256 ^ N.of_nat 8) with m64 in Hd.
+    fold (w64 (w64 (0 + h))) in Hd. fold (w64 (w64 (0 + h'))) in Hd.
+    rewrite !w64_idem, !N.add_0_l in Hd. unfold h, h' in Hd. rewrite !w64_idem in Hd.
+    apply Hcf; [left; reflexivity|right; right; left; reflexivity|exact Hd].
+  Qed.
+End HASH_PARTIAL.
